@@ -561,6 +561,11 @@ def spec_func(ex, st, ctx, name, args, node):
         for a in args[1:]:
             want = z3.Concat(want, z3.Unit(a))
         return VBool(seq == simp(want))
+    if name in ("AP", "RP", "EPT"):
+        # the path functions as uninterpreted symbols (DESIGN C01): only calling the real functions with the
+        # right arguments in the right order can establish an equation between them
+        f = z3.Function("u_" + name, Val, Val, Val, Val)
+        return f(args[0], args[1], args[2])
     if name == "fresh_ref":
         return VBool(z3.And(is_Ref(args[0]), rval(args[0]) > 0))
     raise OutOfSubset("spec function " + name, node)
